@@ -2,8 +2,9 @@
    It parses every datagram by its own reading of the RMCP / session-header / IPMB
    formats, answers the session commands, and records the first rule a datagram breaks:
      - ping, Get Channel Authentication Capabilities, Get Session Challenge, Activate
-       Session arrive in that order; the first three carry authentication type none,
-       session id 0, sequence number 0;
+       Session arrive in that order (a request may be repeated immediately: retransmission
+       after a lost reply); the first three carry authentication type none, session id 0,
+       sequence number 0;
      - the challenge request names the configured user and the strongest type that the
        BMC offers and the library implements (MD5 > password > none);
      - Activate Session: that type, the temporary id, a valid authentication code, and in
@@ -91,12 +92,28 @@ Definition pong : list N :=
   [6; 0; 0xff; 6; 0; 0; 0x11; 0xbe; 0x40; 0; 0; 0x10; 0; 0; 0x11; 0xbe; 0; 0; 0; 0; 0x81; 0; 0; 0; 0; 0; 0; 0].
 Definition ping_dgram : list N := [6; 0; 0xff; 6; 0; 0; 0x11; 0xbe; 0x80; 0; 0; 0].
 
-(* the rules, on a parsed datagram pp carrying the IPMB request (netfn, lun, cmd, data) *)
+(* Activate Session under type a: header (type, temporary id), code, data (type, privilege,
+   challenge) *)
+Definition bmc_activate (p : bmcp) (s : bstate) (pp : parsed) (data : list N) (a : N) : bstate * lreply :=
+  let rsp := LData ([0; a] ++ le_bytes 4 (b_sid p) ++ le_bytes 4 (b_init p) ++ [b_priv p]) in
+  let ph := P4 a None in
+  if negb ((p_auth pp =? a) && (le_val (p_sidb pp) =? b_tmp p)) then (flag s ph V_ACT_HDR, rsp)
+  else if negb (bytes_eqb (p_code pp) (bmc_code a (b_pw p) (p_sidb pp) (p_seqb pp) (p_frame pp)))
+    then (flag s ph V_ACT_CODE, rsp)
+  else if negb (Nat.eqb (length data) 22 && (nth 0 data 0 =? a) && (nth 1 data 0 =? b_priv p)
+                && bytes_eqb (firstn 16 (skipn 2 data)) (b_chal p))
+    then (flag s ph V_ACT_DATA, rsp)
+  else (mkB ph (b_viol s) (b_cnt s), rsp).
+
+(* the rules, on a parsed datagram pp carrying the IPMB request (netfn, lun, cmd, data).  A
+   handshake request may be REPEATED while the automaton is in the phase that request leads to
+   (its reply was lost; with max_retries > 0 the console re-sends after the time-out): it is
+   checked and answered again. *)
 Definition bmc_logic (p : bmcp) (s : bstate) (pp : parsed) (netfn lun cmd : N) (data : list N) : bstate * lreply :=
   if (netfn =? 6) && (cmd =? 0x38) then
     let rsp := LData [0; 1; b_caps p; 0; 0; 0; 0; 0; 0] in
     match b_ph s with
-    | P1 =>
+    | P1 | P2 =>          (* P2: the reply was lost and the console sends the request again *)
       if negb (null_hdr pp) then (flag s P2 V_PRESESSION_HDR, rsp)
       else match data with
            | [c; pr] => if (N.land c 0xf =? 0xe) && (pr =? b_priv p)
@@ -110,7 +127,7 @@ Definition bmc_logic (p : bmcp) (s : bstate) (pp : parsed) (netfn lun cmd : N) (
     | a :: user =>
       let rsp := LData ([0] ++ le_bytes 4 (b_tmp p) ++ b_chal p) in
       match b_ph s with
-      | P2 =>
+      | P2 | P3 _ =>      (* P3: retransmission after a lost reply *)
         if negb (null_hdr pp) then (flag s (P3 a) V_PRESESSION_HDR, rsp)
         else if match best (b_caps p) with Some b => negb (a =? b) | None => false end
           then (flag s (P3 a) V_AUTH_CHOICE, rsp)
@@ -122,16 +139,8 @@ Definition bmc_logic (p : bmcp) (s : bstate) (pp : parsed) (netfn lun cmd : N) (
     end
   else if (netfn =? 6) && (cmd =? 0x3a) then
     match b_ph s with
-    | P3 a =>
-      let rsp := LData ([0; a] ++ le_bytes 4 (b_sid p) ++ le_bytes 4 (b_init p) ++ [b_priv p]) in
-      let ph := P4 a None in
-      if negb ((p_auth pp =? a) && (le_val (p_sidb pp) =? b_tmp p)) then (flag s ph V_ACT_HDR, rsp)
-      else if negb (bytes_eqb (p_code pp) (bmc_code a (b_pw p) (p_sidb pp) (p_seqb pp) (p_frame pp)))
-        then (flag s ph V_ACT_CODE, rsp)
-      else if negb (Nat.eqb (length data) 22 && (nth 0 data 0 =? a) && (nth 1 data 0 =? b_priv p)
-                    && bytes_eqb (firstn 16 (skipn 2 data)) (b_chal p))
-        then (flag s ph V_ACT_DATA, rsp)
-      else (mkB ph (b_viol s) (b_cnt s), rsp)
+    | P3 a => bmc_activate p s pp data a
+    | P4 a None => bmc_activate p s pp data a      (* retransmission after a lost reply *)
     | _ => (flag s (b_ph s) V_ORDER, LData [0x81])
     end
   else
